@@ -590,10 +590,12 @@ pub fn remove_file(path: &str) {
     let _ = std::fs::remove_file(path);
 }
 
-/// An in-memory copy of a small directory tree (files only).
+/// An in-memory copy of a small directory tree (files and symbolic links).
 #[derive(Clone, Default)]
 pub struct Snapshot {
     pub files: Vec<(String, Vec<u8>, SystemTime)>,
+    /// (link path, link text)
+    pub links: Vec<(String, String)>,
 }
 
 fn walk(dir: &Path, prefix: &str, out: &mut Vec<String>) {
@@ -621,6 +623,10 @@ pub fn snapshot() -> Snapshot {
     names.sort();
     let mut s = Snapshot::default();
     for n in names {
+        if let Ok(target) = std::fs::read_link(&n) {
+            s.links.push((n, target.to_string_lossy().into_owned()));
+            continue;
+        }
         let data = std::fs::read(&n).unwrap_or_default();
         let mt = std::fs::metadata(&n)
             .and_then(|m| m.modified())
@@ -660,5 +666,14 @@ pub fn restore(s: &Snapshot) {
         std::fs::write(p, data).expect("restore write");
         let f = std::fs::OpenOptions::new().write(true).open(p).expect("open");
         f.set_modified(*mt).expect("set mtime");
+    }
+    for (name, target) in &s.links {
+        let p = Path::new(name);
+        if let Some(parent) = p.parent() {
+            if !parent.as_os_str().is_empty() {
+                std::fs::create_dir_all(parent).expect("mkdir");
+            }
+        }
+        std::os::unix::fs::symlink(target, p).expect("restore symlink");
     }
 }
